@@ -55,6 +55,7 @@ Universe ==
     [] P_MODE = "partial" -> PartialProgs(P_SIZE)
     [] P_MODE = "builtins" -> BuiltinProgs(P_SIZE)
     [] P_MODE = "specials" -> SpecialProgs
+    [] P_MODE = "sizes" -> SizeProgs
     [] P_MODE = "bcbig" -> BcBigProgs(P_SIZE)
     [] P_MODE = "lazy" -> LazyProgs
     [] P_MODE = "opt" -> OptProgs
